@@ -18,7 +18,9 @@ import (
 	"encoding/json"
 	"errors"
 	"fmt"
+	"io"
 	"strings"
+	"testing/iotest"
 
 	"github.com/notaryproject/notation-core-go/signature"
 	"github.com/notaryproject/notation-go"
@@ -376,7 +378,23 @@ func main() {
 				if blobMTStated {
 					mt = blobMT(c.Present, a)
 				}
-				_, outcome, verr = notation.VerifyBlob(ctx, v, bytes.NewReader(blob), e.Raw, notation.VerifyBlobOptions{BlobVerifierVerifyOptions: notation.BlobVerifierVerifyOptions{SignatureMediaType: e.Format, UserMetadata: req}, ContentMediaType: mt})
+				// the options are filled the ways callers fill them (nested literal, or field by field through the promoted
+				// selectors), and the blob is presented through readers with different end-of-stream habits
+				vbo := notation.VerifyBlobOptions{BlobVerifierVerifyOptions: notation.BlobVerifierVerifyOptions{SignatureMediaType: e.Format, UserMetadata: req}, ContentMediaType: mt}
+				if ci%2 == 1 {
+					vbo = notation.VerifyBlobOptions{}
+					vbo.SignatureMediaType = e.Format
+					vbo.UserMetadata = req
+					vbo.ContentMediaType = mt
+				}
+				var rd io.Reader = bytes.NewReader(blob)
+				switch ci % 3 {
+				case 1:
+					rd = iotest.DataErrReader(bytes.NewReader(blob)) // the last bytes arrive TOGETHER with io.EOF
+				case 2:
+					rd = iotest.OneByteReader(bytes.NewReader(blob))
+				}
+				_, outcome, verr = notation.VerifyBlob(ctx, v, rd, e.Raw, vbo)
 			}
 		})
 		id := fmt.Sprintf("%s|%s|present=%s|meta=%s|%s|trusting=%v", e.Label, c.API, c.Present, c.MetaReq, L, c.Trusting)
